@@ -83,7 +83,8 @@ pub fn drive(sim: &mut Simulator, stim: &Stimulus, presample: bool, has_comb: bo
                 if v.width() != p.width {
                     return Err(format!("output {} has width {} (expected {})", p.name, v.width(), p.width));
                 }
-                row.push(v.payload().into_owned());
+                // X/Z mask (4-state engines) above the payload bits
+                row.push(v.payload().into_owned() | (v.mask_xz().into_owned() << p.width));
             }
             Ok(row)
         };
